@@ -301,7 +301,9 @@ def validate_histories(ctx, jobs, lin_module, cfg_consts, group=None, prop=None,
         npart_rej = 0
         for gid0, (rec0, ids) in partial.items():
             if not any("\n".join(by_id[c][2]) in body_acc for c in ids):
-                rej.append(rec0); npart_rej += 1
+                # reported as an ordinary rejection (kind "reject", so that the signature / known-finding rules apply): the hang marker is replaced
+                body0 = [l for l in rec0[2] if '"op":"hang"' not in l and '"op":"deadlock"' not in l] + ['{"e":"x","t":0,"op":"partial","a":0,"b":0}']
+                rej.append((rec0[0], rec0[1], body0, rec0[3])); npart_rej += 1
         log("  %d abandoned executions (deadlock / livelock) judged by the completions of their partial histories: %d have no acceptable completion" % (len(partial), npart_rej))
     log("  validated %d distinct histories against %s (%s): %d rejected; %d states, %d TLC shards, %.1fs" % (len(hl), lin_module, group or "-", len(rej), nstates, nsh, time.time() - t0))
     if len(ctx.samples) < 3 and hl:
